@@ -376,6 +376,16 @@ def evaluate(ctx, v, cases, impl, model):
                 if not limits_hold(meta.get("opts", (256, 256, 1024, 1048576, 0)), toks.split(";") if toks else []):
                     v.property_failure("accepted-beyond-limits", "an accepted document exceeds a configured limit", line, ri[:400])
                     failed = True
+            if head != "OK" and toks and not failed:
+                # every token handed out before the error must respect the limits as well
+                try:
+                    lo = tuple(int(x) for x in line.split(" ")[1].split(","))
+                except ValueError:
+                    lo = None
+                if lo and len(lo) == 5 and not limits_hold((lo[0], lo[1], lo[2], lo[3], 0), toks.split(";")):
+                    v.property_failure("accepted-beyond-limits", "a token reported before the error exceeds a configured limit "
+                                       "(depth / attributes / name / text)", line, ri[:400])
+                    failed = True
             if k == "doc" and not failed:
                 if head != "OK" or tl != meta["expect"] or dom != meta["dom"]:
                     sig = "xml-leading-whitespace-dropped" if meta.get("ws") else "report-faithful"
